@@ -10,9 +10,15 @@ call as the same dictionary and the same data, for
   values of any shape built from flat operands by arrays (including **empty arrays**) and
   dictionaries up to the nesting limit `maxValueDepth` of `readValueDepth`
   (`valT`/`arrVT`/`dictVT`, mutual structural induction against the recursive reader);
-* width and height within the scanner's limits, no positive `Length`/`L`, last filter not ASCII;
-* data of at most `maxInlineImageBytes − 2` bytes which **contains no end-of-line byte followed
-  by `EI` and a non-regular byte** (`hasFalseEI = false`).
+* width and height within the scanner's limits;
+* data of at most `maxInlineImageBytes` bytes which either comes with a `Length`/`L` entry equal
+  to its length (then the data is arbitrary: `EI` inside, leading white space behind an ASCII
+  filter, D-C15-9) or has no positive `Length`, a last filter which is not ASCII, and **contains
+  no end-of-line byte followed by `EI` and a non-regular byte** (`hasFalseEI = false`).
+
+`noL_cap_eq_L_cap`: the `EI` search finds data of `n` bytes iff the `Length` branch accepts
+`Length = n`, namely iff `n ≤ maxInlineImageBytes` (D-C15-2: the search loop of the library before
+the fix stopped at `maxInlineImageBytes − 2`; `noL_cap_old_off_by_two` is the refutation for it).
 
 `inline_image_rt_full_false` shows on the model that the last hypothesis cannot be dropped (the
 known finding D11).  The restrictions "keys are plain", "no nil entries", "no empty arrays" of
@@ -490,19 +496,19 @@ theorem checkEI_trailer (b : Nat) (r rest : Bytes) :
   | [c] => simp [trailer, checkEI]
   | c :: d :: r' => simp [checkEI]
 
-/-- **The search loop** finds exactly the real terminator when the data has no false one. -/
+/-- **The search loop** finds exactly the real terminator when the data has no false one and is
+at most `maxInlineImageBytes` long. -/
 theorem iiLoop_data (data : Bytes) : ∀ (n prev : Nat) (rest : Bytes),
-    hasFalseEI prev data trailer = false → n + data.length + 1 < Gen.content_maxInlineImageBytes →
+    hasFalseEI prev data trailer = false → n + data.length ≤ Gen.content_maxInlineImageBytes →
     iiLoop n prev (data ++ trailer ++ rest) = .found (data ++ [10]) (69 :: 73 :: 10 :: rest) := by
   induction data with
   | nil =>
     intro n prev rest _ hlen
-    have h1 : ¬ (Gen.content_maxInlineImageBytes ≤ n) := by simp at hlen; omega
-    have h2 : ¬ (Gen.content_maxInlineImageBytes ≤ n + 1) := by simp at hlen; omega
-    simp [trailer, iiLoop, h1, h2, checkEI, cReg_10, IIRes.cons]
+    have h1 : ¬ (n > Gen.content_maxInlineImageBytes) := by simp at hlen; omega
+    simp [trailer, iiLoop, h1, checkEI, cReg_10, IIRes.cons]
   | cons b r ih =>
     intro n prev rest hno hlen
-    have h1 : ¬ (Gen.content_maxInlineImageBytes ≤ n) := by simp at hlen; omega
+    have h1 : ¬ (n > Gen.content_maxInlineImageBytes) := by simp at hlen; omega
     simp only [hasFalseEI, Bool.or_eq_false_iff] at hno
     obtain ⟨hhere, hrest⟩ := hno
     have hck : ((prev == 13 || prev == 10) && checkEI (b :: (r ++ trailer ++ rest))) = false := by
@@ -513,8 +519,119 @@ theorem iiLoop_data (data : Bytes) : ∀ (n prev : Nat) (rest : Bytes),
     have ih' := ih (n + 1) b rest hrest (by simp at hlen ⊢; omega)
     simp only [List.cons_append, List.append_assoc] at ih' hck ⊢
     rw [iiLoop]
-    simp only [h1, hck, ge_iff_le, if_false, Bool.false_eq_true, ih', IIRes.cons]
+    simp only [h1, hck, if_false, Bool.false_eq_true, ih', IIRes.cons]
 
+/-- longer data is not found: the loop gives up (the scanner reports a parse error) -/
+theorem iiLoop_capped (data : Bytes) : ∀ (n prev : Nat) (rest : Bytes),
+    hasFalseEI prev data trailer = false → n + data.length > Gen.content_maxInlineImageBytes →
+    ∃ r, iiLoop n prev (data ++ trailer ++ rest) = .capped r := by
+  induction data with
+  | nil =>
+    intro n prev rest _ hlen
+    have h1 : n > Gen.content_maxInlineImageBytes := by simpa using hlen
+    exact ⟨10 :: 69 :: 73 :: 10 :: rest, by simp [trailer, iiLoop, h1, checkEI]⟩
+  | cons b r ih =>
+    intro n prev rest hno hlen
+    simp only [hasFalseEI, Bool.or_eq_false_iff] at hno
+    obtain ⟨hhere, hrest⟩ := hno
+    have hck : ((prev == 13 || prev == 10) && checkEI (b :: (r ++ trailer ++ rest))) = false := by
+      have := checkEI_trailer b r rest
+      simp only [List.cons_append] at this hhere
+      rw [this]
+      exact hhere
+    simp only [List.cons_append, List.append_assoc] at hck ⊢
+    rw [iiLoop]
+    simp only [hck, Bool.false_eq_true, if_false]
+    by_cases h1 : n > Gen.content_maxInlineImageBytes
+    · exact ⟨b :: (r ++ (trailer ++ rest)), by simp only [h1, if_true]⟩
+    · obtain ⟨r', hr'⟩ := ih (n + 1) b rest hrest (by simp at hlen ⊢; omega)
+      simp only [List.append_assoc] at hr'
+      exact ⟨r', by simp only [h1, if_false, hr', IIRes.cons]⟩
+
+/-- **The two caps agree.**  Written data (without a false `EI`) of `n` bytes is found by the
+`EI` search iff the `Length` branch of `imageData` accepts `Length = n` (its test is
+`length > maxInlineImageBytes → parse error`): both read back up to `maxInlineImageBytes` bytes. -/
+theorem noL_cap_eq_L_cap (data rest : Bytes) (hclean : hasFalseEI 0 data trailer = false) :
+    (∃ d r, iiLoop 0 0 (data ++ trailer ++ rest) = .found d r) ↔
+      ¬ ((data.length : Int) > (Gen.content_maxInlineImageBytes : Nat)) := by
+  constructor
+  · intro ⟨d, r, h⟩ hgt
+    obtain ⟨r', hr'⟩ := iiLoop_capped data 0 0 rest hclean (by omega)
+    rw [hr'] at h
+    cases h
+  · intro hle
+    exact ⟨_, _, iiLoop_data data 0 0 rest hclean (by omega)⟩
+
+/-- the search loop of `readInlineImage` as it was before D-C15-2
+    (`for len(imageData) < maxInlineImageBytes { if EI … break; read }`, then
+    `if len(imageData) >= maxInlineImageBytes → parse error`) -/
+def iiLoopOld : (n : Nat) → (prev : Nat) → Bytes → IIRes
+  | n, prev, [] =>
+    if n ≥ Gen.content_maxInlineImageBytes then .capped []
+    else if (prev == 13 || prev == 10) && checkEI [] then .found [] []
+    else .eof
+  | n, prev, b :: r =>
+    if n ≥ Gen.content_maxInlineImageBytes then .capped (b :: r)
+    else if (prev == 13 || prev == 10) && checkEI (b :: r) then .found [] (b :: r)
+    else (iiLoopOld (n + 1) b r).cons b
+
+/-- the old loop gives up on data of `maxInlineImageBytes − 1` or more bytes -/
+theorem iiLoopOld_capped (data : Bytes) : ∀ (n prev : Nat) (rest : Bytes),
+    hasFalseEI prev data trailer = false → n + data.length + 1 ≥ Gen.content_maxInlineImageBytes →
+    ∃ r, iiLoopOld n prev (data ++ trailer ++ rest) = .capped r := by
+  induction data with
+  | nil =>
+    intro n prev rest _ hlen
+    by_cases h1 : n ≥ Gen.content_maxInlineImageBytes
+    · exact ⟨10 :: 69 :: 73 :: 10 :: rest, by simp [trailer, iiLoopOld, h1]⟩
+    · have h2 : n + 1 ≥ Gen.content_maxInlineImageBytes := by simpa using hlen
+      exact ⟨69 :: 73 :: 10 :: rest, by simp [trailer, iiLoopOld, h1, h2, checkEI, IIRes.cons]⟩
+  | cons b r ih =>
+    intro n prev rest hno hlen
+    simp only [hasFalseEI, Bool.or_eq_false_iff] at hno
+    obtain ⟨hhere, hrest⟩ := hno
+    have hck : ((prev == 13 || prev == 10) && checkEI (b :: (r ++ trailer ++ rest))) = false := by
+      have := checkEI_trailer b r rest
+      simp only [List.cons_append] at this hhere
+      rw [this]
+      exact hhere
+    simp only [List.cons_append, List.append_assoc] at hck ⊢
+    rw [iiLoopOld]
+    by_cases h1 : n ≥ Gen.content_maxInlineImageBytes
+    · exact ⟨b :: (r ++ (trailer ++ rest)), by simp only [h1, if_true]⟩
+    · obtain ⟨r', hr'⟩ := ih (n + 1) b rest hrest (by simp at hlen ⊢; omega)
+      simp only [List.append_assoc] at hr'
+      exact ⟨r', by simp only [h1, hck, Bool.false_eq_true, if_false, hr', IIRes.cons]⟩
+
+theorem checkEI_120 (r : Bytes) : checkEI (120 :: r) = false := by
+  cases r <;> simp [checkEI]
+
+theorem clean_replicate (k prev : Nat) : hasFalseEI prev (List.replicate k 120) trailer = false := by
+  induction k generalizing prev with
+  | zero => rfl
+  | succ k ih =>
+    rw [List.replicate_succ, hasFalseEI, List.cons_append, checkEI_120, ih]
+    simp
+
+/-- **`noL_cap_eq_L_cap` fails for the loop before the fix**: there is written data without a
+false `EI` (`maxInlineImageBytes − 1` bytes `x`) which the `Length` branch accepts and the old
+search does not find. -/
+theorem noL_cap_old_off_by_two :
+    ∃ data, hasFalseEI 0 data trailer = false ∧
+      ¬ ((data.length : Int) > (Gen.content_maxInlineImageBytes : Nat)) ∧
+      ∀ rest, ¬ ∃ d r, iiLoopOld 0 0 (data ++ trailer ++ rest) = .found d r := by
+  refine ⟨List.replicate (Gen.content_maxInlineImageBytes - 1) 120, clean_replicate _ 0, ?_, ?_⟩
+  · rw [List.length_replicate]
+    generalize Gen.content_maxInlineImageBytes = c
+    omega
+  · intro rest ⟨d, r, h⟩
+    obtain ⟨r', hr'⟩ := iiLoopOld_capped (List.replicate (Gen.content_maxInlineImageBytes - 1) 120) 0 0 rest
+      (clean_replicate _ 0) (by
+        rw [List.length_replicate]
+        generalize Gen.content_maxInlineImageBytes = c
+        omega)
+    rw [hr'] at h
+    cases h
 
 /-! ## the whole operator -/
 
@@ -582,14 +699,16 @@ structure ImageOk (kv : List (Bytes × Obj)) (data : Bytes) : Prop where
   width : 0 < iiInt (imgDict kv) nmW nmWidth ∧ iiInt (imgDict kv) nmW nmWidth ≤ Gen.content_maxInlineImageDim
   height : 0 < iiInt (imgDict kv) nmH nmHeight ∧ iiInt (imgDict kv) nmH nmHeight ≤ Gen.content_maxInlineImageDim
   pixels : iiInt (imgDict kv) nmW nmWidth * iiInt (imgDict kv) nmH nmHeight ≤ Gen.content_maxInlineImagePixels
-  noLength : iiInt (imgDict kv) nmL nmLength ≤ 0
-  notASCII : isASCIIFilter (iiFilter (imgDict kv)) = false
-  dataLen : data.length + 2 ≤ Gen.content_maxInlineImageBytes
-  noFalseEI : hasFalseEI 0 data trailer = false
+  dataLen : data.length ≤ Gen.content_maxInlineImageBytes
+  framing :
+    (iiInt (imgDict kv) nmL nmLength ≤ 0 ∧ isASCIIFilter (iiFilter (imgDict kv)) = false ∧
+      hasFalseEI 0 data trailer = false) ∨
+    (iiInt (imgDict kv) nmL nmLength = data.length ∧ 0 < data.length)
 
 /-- **`inline_image_rt`.**  An inline image satisfying `ImageOk` — any keys, nil entries, nested
-values; data without `EOL "EI" non-regular` — written by `Operator.Format` is read back by one
-`Scan` call as the same dictionary and the same data, whatever follows. -/
+values; data of up to `maxInlineImageBytes` bytes, either with its `Length` or without
+`EOL "EI" non-regular` — written by `Operator.Format` is read back by one `Scan` call as the same
+dictionary and the same data, whatever follows. -/
 theorem inline_image_rt (kv : List (Bytes × Obj)) (data : Bytes) (h : ImageOk kv data) (bs : Bytes)
     (hb : fmtOp Gen.content_OpInlineImage [.dict kv, .str data] = some bs) :
     OpStep bs (Gen.content_OpInlineImage, [.dict (imgDict kv), .str data]) := by
@@ -622,11 +741,9 @@ theorem inline_image_rt (kv : List (Bytes × Obj)) (data : Bytes) (h : ImageOk k
         (10 :: (eb ++ (bytesID ++ (data ++ trailer ++ rest)))) = .ok (imgDict kv) (10 :: (data ++ trailer ++ rest)) := by
       rw [readDictBody_space 10 _ cSpace_10]
       simpa [bytesID, imgDict] using hdict
-    have hloop := iiLoop_data data 0 0 rest h.noFalseEI (by have := h.dataLen; omega)
     have hw := h.width
     have hh := h.height
     have hp := h.pixels
-    have hnl := h.noLength
     have hII : readInlineImage (10 :: (eb ++ (bytesID ++ (data ++ trailer ++ rest)))) =
         .ok (Gen.content_OpInlineImage, [.dict (imgDict kv), .str data]) (10 :: rest) := by
       unfold readInlineImage
@@ -636,10 +753,32 @@ theorem inline_image_rt (kv : List (Bytes × Obj)) (data : Bytes) (h : ImageOk k
       have c3 : ¬ (iiInt (imgDict kv) nmW nmWidth > ↑Gen.content_maxInlineImageDim) := by omega
       have c4 : ¬ (iiInt (imgDict kv) nmH nmHeight > ↑Gen.content_maxInlineImageDim) := by omega
       have c5 : ¬ (iiInt (imgDict kv) nmW nmWidth * iiInt (imgDict kv) nmH nmHeight > ↑Gen.content_maxInlineImagePixels) := by omega
-      have c6 : ¬ (iiInt (imgDict kv) nmL nmLength > 0) := by omega
-      simp only [c1, c2, c3, c4, c5, c6, decide_false, Bool.or_self, Bool.false_eq_true, if_false, cSpace_10, if_true,
-        h.notASCII, Bool.false_and, hloop, afterID, imageData]
-      simp [iiFinish, cReg_10]
+      simp only [c1, c2, c3, c4, c5, decide_false, Bool.or_self, Bool.false_eq_true, if_false]
+      rcases h.framing with ⟨hnl, hna, hclean⟩ | ⟨hl, hpos⟩
+      · -- the EI search
+        have hloop := iiLoop_data data 0 0 rest hclean (by have := h.dataLen; omega)
+        have c6 : ¬ (iiInt (imgDict kv) nmL nmLength > 0) := by omega
+        have hsk : skipsWS (imgDict kv) = false := by simp [skipsWS, hna]
+        simp only [c6, hsk, decide_false, Bool.false_eq_true, if_false, cSpace_10, if_true,
+          Bool.false_and, hloop, afterID, imageData]
+        simp [iiFinish, cReg_10]
+      · -- the Length key
+        have c6 : iiInt (imgDict kv) nmL nmLength > 0 := by omega
+        have c7 : ¬ (iiInt (imgDict kv) nmL nmLength > ↑Gen.content_maxInlineImageBytes) := by
+          have := h.dataLen; omega
+        have hsk : skipsWS (imgDict kv) = false := by
+          have : ¬ (iiInt (imgDict kv) nmL nmLength ≤ 0) := by omega
+          simp [skipsWS, this]
+        have hn : (iiInt (imgDict kv) nmL nmLength).toNat = data.length := by omega
+        have e1 : (data ++ trailer ++ rest).take data.length = data := by simp
+        have e2 : (data ++ trailer ++ rest).drop data.length = 10 :: 69 :: 73 :: 10 :: rest := by
+          simp [trailer]
+        have e3 : ¬ ((data ++ trailer ++ rest).length < data.length) := by simp
+        have h69 : cSpace 69 = false := by decide +kernel
+        simp only [c6, c7, hsk, hn, e1, e2, e3, decide_false, decide_true, Bool.false_eq_true, if_false, cSpace_10,
+          if_true, Bool.false_and, afterID, imageData, skipWS_space 10 _ cSpace_10,
+          skipWS_nonspace 69 _ h69 (by decide)]
+        simp [iiFinish, cReg_10]
     have e0 : bytesBI ++ (eb ++ (bytesID ++ (data ++ [10, 69, 73]))) ++ 10 :: rest =
         66 :: 73 :: 10 :: (eb ++ (bytesID ++ (data ++ trailer ++ rest))) := by
       simp [bytesBI, trailer]
